@@ -114,6 +114,12 @@ def targets(ctx):
                 ("member_set_value", lambda: setattr(m0, "value", v0 + 1)),
                 ("member_del_name", lambda: delattr(m0, "name")),
                 ("member_set_new", lambda: setattr(m0, "extra", 1)),
+                # special-method names are attributes like any other: replacing them changes what members ARE
+                ("class_setattr_dunder_eq", lambda: setattr(E, "__eq__", lambda a, b: True)),
+                ("class_setattr_dunder_int", lambda: setattr(E, "__int__", lambda a: -12345)),
+                ("class_setattr_dunder_members", lambda: setattr(E, "__members__", {})),
+                ("class_setattr_dunder_hash", lambda: setattr(E, "__hash__", lambda a: 0)),
+                ("class_delattr_dunder_repr", lambda: delattr(E, "__repr__")),
             ):
                 try:
                     fn()
@@ -122,7 +128,8 @@ def targets(ctx):
                     pass
                 except Exception as e:  # noqa: BLE001
                     out.append(("mutation_wrong_exception", f"{label}: {type(e).__name__}: {e}"))
-            if E(v0) is not m0 or m0.name != canon[v0] or m0.value != v0 or E[n0] is not m0 or hasattr(E, "BRAND_NEW"):
+            if (E(v0) is not m0 or m0.name != canon[v0] or m0.value != v0 or E[n0] is not m0 or hasattr(E, "BRAND_NEW")
+                    or m0 == v0 + 1 or int(m0) != v0 or n0 not in E.__members__):
                 out.append(("state_changed_by_mutation_attempt", f"E({v0}) -> {E(v0)!r}"))
         finally:
             try:
